@@ -71,21 +71,21 @@ def c14_program(draw):
         uid += 1
         if fam == "cal":
             obj = draw(gen.calendar_object(uid=f"c14-{uid}"))
-            steps.append({"op": "C14", "fe": fe, "coll": draw(st.sampled_from(cals)), "name": draw(st.sampled_from(ics)), "ctype": "text/calendar", "body": enc_body(obj["raw"]), "valid": True, "klass": "calendar:" + "+".join(obj["kinds"])})
+            steps.append({"op": "C14", "fe": fe, "coll": draw(st.sampled_from(cals)), "name": draw(st.sampled_from(ics)), "ctype": draw(st.sampled_from(gen_prog.CAL_CTYPES)), "body": enc_body(obj["raw"]), "valid": True, "klass": "calendar:" + "+".join(obj["kinds"])})
         elif fam == "card":
-            steps.append({"op": "C14", "fe": fe, "coll": "a1", "name": draw(st.sampled_from(vcf)), "ctype": "text/vcard", "body": enc_body(draw(gen.vcard())["raw"]), "valid": True, "klass": "vcard"})
+            steps.append({"op": "C14", "fe": fe, "coll": "a1", "name": draw(st.sampled_from(vcf)), "ctype": draw(st.sampled_from(gen_prog.CARD_CTYPES)), "body": enc_body(draw(gen.vcard())["raw"]), "valid": True, "klass": "vcard"})
         elif fam == "badcal":
             k, raw = draw(gen.invalid_calendar())
             _maybe_prestore(draw, steps, raw, fe, draw(st.sampled_from(cals)))
-            steps.append({"op": "C14", "fe": fe, "coll": draw(st.sampled_from(cals)), "name": draw(st.sampled_from(ics)), "ctype": "text/calendar", "body": enc_body(raw), "valid": False, "klass": k})
+            steps.append({"op": "C14", "fe": fe, "coll": draw(st.sampled_from(cals)), "name": draw(st.sampled_from(ics)), "ctype": draw(st.sampled_from(gen_prog.CAL_CTYPES)), "body": enc_body(raw), "valid": False, "klass": k})
         elif fam == "deepctrl":
             k, raw = draw(deep_ctrl_calendar())
             _maybe_prestore(draw, steps, raw, fe, draw(st.sampled_from(cals)))
-            steps.append({"op": "C14", "fe": fe, "coll": draw(st.sampled_from(cals)), "name": draw(st.sampled_from(ics)), "ctype": "text/calendar", "body": enc_body(raw), "valid": False, "klass": k})
+            steps.append({"op": "C14", "fe": fe, "coll": draw(st.sampled_from(cals)), "name": draw(st.sampled_from(ics)), "ctype": draw(st.sampled_from(gen_prog.CAL_CTYPES)), "body": enc_body(raw), "valid": False, "klass": k})
         else:
             k, raw = draw(gen.invalid_vcard())
             _maybe_prestore(draw, steps, raw, fe, "a1")
-            steps.append({"op": "C14", "fe": fe, "coll": "a1", "name": draw(st.sampled_from(vcf)), "ctype": "text/vcard", "body": enc_body(raw), "valid": False, "klass": "vcard-" + k})
+            steps.append({"op": "C14", "fe": fe, "coll": "a1", "name": draw(st.sampled_from(vcf)), "ctype": draw(st.sampled_from(gen_prog.CARD_CTYPES)), "body": enc_body(raw), "valid": False, "klass": "vcard-" + k})
         if draw(st.integers(0, 5)) == 0:
             # a member created by POST (the server chooses the name), media type with or without parameters;
             # a later upload - valid or not - addresses the URL the server handed out
@@ -93,13 +93,13 @@ def c14_program(draw):
             if isab:
                 steps.append({"op": "POST", "fe": fe, "coll": "a1", "ctype": draw(st.sampled_from(["text/vcard", "text/vcard; charset=utf-8", "text/vcard;charset=UTF-8"])), "body": enc_body(draw(gen.vcard())["raw"])})
                 k, raw = draw(gen.invalid_vcard())
-                steps.append({"op": "C14", "fe": draw(gen_prog.FE), "coll": "a1", "name": {"posted": draw(st.integers(0, 3))}, "ctype": "text/vcard", "body": enc_body(raw), "valid": False, "klass": "vcard-" + k})
+                steps.append({"op": "C14", "fe": draw(gen_prog.FE), "coll": "a1", "name": {"posted": draw(st.integers(0, 3))}, "ctype": draw(st.sampled_from(gen_prog.CARD_CTYPES)), "body": enc_body(raw), "valid": False, "klass": "vcard-" + k})
             else:
                 uid += 1
                 cslot = draw(st.sampled_from(cals))
                 steps.append({"op": "POST", "fe": fe, "coll": cslot, "ctype": draw(st.sampled_from(["text/calendar", "text/calendar; charset=utf-8", "text/calendar;charset=utf-8", "text/calendar; component=VEVENT"])), "body": enc_body(draw(gen.calendar_object(uid=f"c14-p{uid}"))["raw"])})
                 k, raw = draw(gen.invalid_calendar())
-                steps.append({"op": "C14", "fe": draw(gen_prog.FE), "coll": cslot, "name": {"posted": draw(st.integers(0, 3))}, "ctype": "text/calendar", "body": enc_body(raw), "valid": False, "klass": k})
+                steps.append({"op": "C14", "fe": draw(gen_prog.FE), "coll": cslot, "name": {"posted": draw(st.integers(0, 3))}, "ctype": draw(st.sampled_from(gen_prog.CAL_CTYPES)), "body": enc_body(raw), "valid": False, "klass": k})
         if draw(st.integers(0, 9)) == 0:
             steps.append({"op": "RESTART"})
         if draw(st.integers(0, 7)) == 0:
